@@ -33,6 +33,11 @@ struct Shared {
     adverts: usize,
     blocks_served: usize,
     protocol_oddities: usize,
+    /// 'leech' remotes: blocks received that are exactly the requested range of the original content / anything else
+    /// (unrequested, other bytes, a piece whose verified file does not exist) / received after a Choke and before the next Unchoke
+    up_ok: usize,
+    up_bad: usize,
+    up_choked: usize,
 }
 
 async fn write_chunked(w: &mut DuplexStream, data: &[u8], rng: &mut Lcg, slow: bool) -> bool {
@@ -104,6 +109,19 @@ async fn remote_peer(
     let mut unchoked_them = false;
     let unchoke_at = have_at + Duration::from_secs(30);
     let mut held: Option<(usize, usize, usize)> = None;
+    // 'leech <k>': owns nothing, declares interest, and requests every piece the client advertises, block by block, as soon
+    // as the client unchokes it; checks every block it receives against the original content. With k > 0 it also asks
+    // once for a piece the client has not advertised (must stay unanswered)
+    let leech = behaviour == "leech";
+    let mut they_unchoked = false;
+    let mut advertised = vec![false; n];
+    let mut wanted: Vec<usize> = vec![];
+    let mut outstanding: Vec<(usize, usize, usize)> = vec![];
+    let mut asked_unowned = false;
+    // (the client buffers its Have messages for a peer that chokes it, so the leech unchokes the client as well)
+    if leech && !(write_chunked(&mut io, &frame(2, &[]), &mut rng, slow).await && write_chunked(&mut io, &frame(1, &[]), &mut rng, slow).await) {
+        return;
+    }
     // 'holdleave <ms>': takes requests, never answers, leaves after <ms>
     let leave_at = tokio::time::Instant::now() + if behaviour == "holdleave" { Duration::from_millis(arg as u64) } else { Duration::from_secs(100_000_000) };
     let mut tmp = vec![0u8; 1 << 16];
@@ -150,11 +168,51 @@ async fn remote_peer(
                         return;
                     }
                 }
-                4 => check_advert(u32::from_be_bytes([msg[5], msg[6], msg[7], msg[8]]) as usize),
+                0 if leech => they_unchoked = false,
+                1 if leech => they_unchoked = true,
+                4 => {
+                    let i = u32::from_be_bytes([msg[5], msg[6], msg[7], msg[8]]) as usize;
+                    check_advert(i);
+                    if leech && i < n && !advertised[i] {
+                        advertised[i] = true;
+                        wanted.push(i);
+                    }
+                }
                 5 => {
                     for i in 0..n {
                         if msg[5 + i / 8] & (128 >> (i % 8)) != 0 {
                             check_advert(i);
+                            if leech && !advertised[i] {
+                                advertised[i] = true;
+                                wanted.push(i);
+                            }
+                        }
+                    }
+                }
+                7 if leech => {
+                    let mut sh = shared.lock().unwrap();
+                    if msg.len() < 13 {
+                        sh.up_bad += 1;
+                    } else {
+                        let i = u32::from_be_bytes([msg[5], msg[6], msg[7], msg[8]]) as usize;
+                        let b = u32::from_be_bytes([msg[9], msg[10], msg[11], msg[12]]) as usize;
+                        let data = &msg[13..];
+                        let pos = outstanding.iter().position(|r| *r == (i, b, data.len()));
+                        // (an answer may overtake the Have for its piece: the request for a not-yet-advertised piece is answered
+                        // rightly when the client has completed that piece by the time it handles the request; what counts
+                        // is that the verified piece file exists at this moment)
+                        let owned = i < n && std::fs::read(hexname(&hashes[i])).map(|d| sha1(&d) == hashes[i]).unwrap_or(false);
+                        let good = pos.is_some() && owned && b + data.len() <= pieces[i].len() && data == &pieces[i][b..b + data.len()];
+                        if let Some(k) = pos {
+                            outstanding.remove(k);
+                        }
+                        if good {
+                            sh.up_ok += 1;
+                        } else {
+                            sh.up_bad += 1;
+                        }
+                        if !they_unchoked {
+                            sh.up_choked += 1;
                         }
                     }
                 }
@@ -221,6 +279,34 @@ async fn remote_peer(
                     }
                 }
                 _ => (),
+            }
+            if leech && they_unchoked {
+                for i in std::mem::take(&mut wanted) {
+                    let mut b = 0;
+                    while b < pieces[i].len() {
+                        let l = std::cmp::min(16384, pieces[i].len() - b);
+                        let mut p = (i as u32).to_be_bytes().to_vec();
+                        p.extend_from_slice(&(b as u32).to_be_bytes());
+                        p.extend_from_slice(&(l as u32).to_be_bytes());
+                        outstanding.push((i, b, l));
+                        if !write_chunked(&mut io, &frame(6, &p), &mut rng, slow).await {
+                            return;
+                        }
+                        b += l;
+                    }
+                    if arg > 0 && !asked_unowned {
+                        if let Some(j) = (0..n).find(|j| !advertised[*j]) {
+                            asked_unowned = true;
+                            let mut p = (j as u32).to_be_bytes().to_vec();
+                            p.extend_from_slice(&0u32.to_be_bytes());
+                            p.extend_from_slice(&(std::cmp::min(16384, pieces[j].len()) as u32).to_be_bytes());
+                            outstanding.push((j, 0, std::cmp::min(16384, pieces[j].len())));
+                            if !write_chunked(&mut io, &frame(6, &p), &mut rng, slow).await {
+                                return;
+                            }
+                        }
+                    }
+                }
             }
             if behaviour == "dropafter" && msgs >= arg {
                 let _ = io.shutdown().await;
@@ -403,7 +489,7 @@ async fn run_case(line: &str, scratch: &std::path::Path) -> String {
     }
     let sh = shared.lock().unwrap();
     format!(
-        "allhave={} st={} extracted={} spawned={} mgr={} taskpanics={} files={} badfiles={} havenofile={} adverts={} earlyadverts={} served={} odd={} secs={}",
+        "allhave={} st={} extracted={} spawned={} mgr={} taskpanics={} files={} badfiles={} havenofile={} adverts={} earlyadverts={} served={} odd={} upok={} upbad={} upchoked={} secs={}",
         if all_have { 1 } else { 0 },
         statuses.join(","),
         extracted,
@@ -417,6 +503,9 @@ async fn run_case(line: &str, scratch: &std::path::Path) -> String {
         sh.early_adverts,
         sh.blocks_served,
         sh.protocol_oddities,
+        sh.up_ok,
+        sh.up_bad,
+        sh.up_choked,
         elapsed
     )
 }
